@@ -3,10 +3,10 @@
 package daemon
 
 import (
-	"time"
 	"context"
 	"encoding/json"
 	"sync"
+	"time"
 
 	"github.com/AliyunContainerService/terway/pkg/aliyun/client"
 	"github.com/AliyunContainerService/terway/pkg/eni"
